@@ -39,6 +39,7 @@ pub fn judge_enc(
     call: &EncCall,
     dst: u8,
     variant: u64,
+    want_obs: bool,
 ) -> Judged {
     let exp = expect(call, src, dst, eid_resp);
     let mut j = Judged { viols: vec![], known: None, observed: String::new(), produced: false };
@@ -50,7 +51,9 @@ pub fn judge_enc(
     match prop {
         "C03" => {
             let r = run_enc(ctx, call, dst, exp_len.max(320) + 8, 2);
-            j.observed = obs_of(&r);
+            if want_obs {
+                j.observed = obs_of(&r);
+            }
             if let EncOut::Ok(n) = r.out {
                 j.produced = true;
                 if n < 1 || n > r.buf.len() {
@@ -76,7 +79,9 @@ pub fn judge_enc(
         }
         "C04" => {
             let r = run_enc(ctx, call, dst, 1024, 1);
-            j.observed = obs_of(&r);
+            if want_obs {
+                j.observed = obs_of(&r);
+            }
             match &r.out {
                 EncOut::Ok(n) => {
                     let n = *n;
@@ -137,7 +142,9 @@ pub fn judge_enc(
         }
         "C05" => {
             let r = run_enc(ctx, call, dst, exp_len.max(64) + 8, 2);
-            j.observed = obs_of(&r);
+            if want_obs {
+                j.observed = obs_of(&r);
+            }
             if let (EncOut::Ok(n), EncExp::Bytes(e)) = (&r.out, &exp) {
                 j.produced = true;
                 if *n < 10 {
@@ -161,7 +168,9 @@ pub fn judge_enc(
         }
         "C06" | "C07" | "C08" => {
             let r = run_enc(ctx, call, dst, exp_len.max(64) + 8, 2);
-            j.observed = obs_of(&r);
+            if want_obs {
+                j.observed = obs_of(&r);
+            }
             match (&r.out, &exp) {
                 (EncOut::Ok(n), EncExp::Bytes(e)) => {
                     j.produced = true;
@@ -190,7 +199,7 @@ pub fn judge_enc(
                 (out, EncExp::Refuse) if prop == "C08" && matches!(call, EncCall::Vendor { fmt, .. } if *fmt >= 2) => {
                     // "any other vendor ID format is refused with an error"
                     if *out != EncOut::Refused {
-                        j.viols.push(("format-not-refused", format!("vendor_defined with format {:?} was not refused: {}", call_fmt(call), j.observed)));
+                        j.viols.push(("format-not-refused", format!("vendor_defined with format {:?} was not refused: {}", call_fmt(call), obs_of(&r))));
                     }
                 }
                 _ => {}
@@ -201,7 +210,9 @@ pub fn judge_enc(
             let spare = [1usize, 2, 3, 8, 64][(variant % 5) as usize];
             let base = if exp_len > 0 { exp_len } else { 400 };
             let runs = [run_enc(ctx, call, dst, base, 0), run_enc(ctx, call, dst, base + spare, 1), run_enc(ctx, call, dst, 1024, 2)];
-            j.observed = runs.iter().map(obs_of).collect::<Vec<_>>().join(" | ");
+            if want_obs {
+                j.observed = runs.iter().map(obs_of).collect::<Vec<_>>().join(" | ");
+            }
             match &exp {
                 EncExp::Refuse => {
                     for (k, r) in runs.iter().enumerate() {
@@ -347,7 +358,8 @@ pub fn sweep_enc(
 #[allow(clippy::too_many_arguments)]
 pub fn one(acc: &mut Acc, prop: &'static str, ctx: &MCTPSMBusContext, probe: &MCTPSMBusContext, spec: &CtxSpec, src: u8, eid_resp: u8, call: &EncCall, dst: u8, i: u64) {
     acc.evals += 1;
-    let j = judge_enc(prop, ctx, probe, src, eid_resp, call, dst, i);
+    let sampled = i % 200_003 == 11;
+    let j = judge_enc(prop, ctx, probe, src, eid_resp, call, dst, i, sampled);
     acc.trans += if prop == "C16" { 3 } else { 1 };
     acc.validated += 1;
     let f = Fnv::default().u64(fp(call)).u64(((src as u64) << 8) | dst as u64).u64(fp(&spec.history)).finish();
@@ -355,11 +367,11 @@ pub fn one(acc: &mut Acc, prop: &'static str, ctx: &MCTPSMBusContext, probe: &MC
     if j.produced {
         acc.nontrivial(f);
     }
-    *acc.hist.entry(format!("{}.{}", call.name(), if j.produced { "ok" } else if j.observed.starts_with("panic") { "panic" } else { "refused" })).or_insert(0) += 1;
+    acc.outcome2(call.name(), if j.produced { "ok" } else { "no-packet" });
     if let Some(k) = j.known {
-        acc.known(k, || json!({"call": call, "dst": dst, "src": src, "observed": j.observed}));
+        acc.known(k, || json!({"call": call, "dst": dst, "src": src}));
     }
-    if i % 200_003 == 11 {
+    if sampled {
         acc.sample(|| json!({"call": call, "src": src, "dst": dst, "ctx_history": spec.history, "observed": j.observed}));
     }
     for (kind, d) in j.viols {
@@ -378,7 +390,7 @@ pub fn replay_enc(prop: &str, case: &Value) -> Result<ReplayOut, String> {
     let po = Owned::new(&ps.cfg);
     let probe = build(&po, &ps.history);
     let eid_resp = build_ref(&spec).eid_resp;
-    let j = judge_enc(prop, &ctx, &probe, spec.cfg.addr, eid_resp, &call, dst, variant);
+    let j = judge_enc(prop, &ctx, &probe, spec.cfg.addr, eid_resp, &call, dst, variant, true);
     Ok(ReplayOut { violations: j.viols.into_iter().map(|(k, d)| format!("{}: {}", k, d)).collect(), observed: j.observed })
 }
 
